@@ -72,7 +72,28 @@ $cb_false = function($e) { return false; };
 $cb_true = function($e) { return true; };
 $cb_acc = function($acc, $e, $i) { return [$acc, $e, $i]; };
 $cb_acclen = function($acc, $e, $i, $a) { return [$acc, $a->length]; };
+$cb_t1 = function($e, $i) { if ($i == 1) { throw new Exception("boom"); } return $i >= 2; };
+$cb_t2zero = function($e, $i) { if ($i == 2) { throw new Exception("boom"); } return $i == 0; };
+$cb_t2pair = function($e, $i) { if ($i == 2) { throw new Exception("boom"); } return [$e, $i]; };
+$cb_push = function($e, $i) { c15_push(); return $i; };
+$cb_pusheq1 = function($e, $i) { c15_push(); return $i == 1; };
 `
+
+// c15_push: a native function the mutating callbacks call: pushes 99 onto the receiver of the
+// method call in progress, through the receiver's real push method
+var current *data.ArrayValue
+
+type pushFn struct{}
+
+func (pushFn) Call(c data.Context) (data.GetValue, data.Control) {
+	if current != nil {
+		return node.NewObjectMethod(from, current, "push", []data.GetValue{data.NewIntValue(99)}).GetValue(ctx)
+	}
+	return nil, nil
+}
+func (pushFn) GetName() string               { return "c15_push" }
+func (pushFn) GetParams() []data.GetValue    { return nil }
+func (pushFn) GetVariables() []data.Variable { return nil }
 
 func dec(raw json.RawMessage) data.Value {
 	s := strings.TrimSpace(string(raw))
@@ -136,7 +157,11 @@ func enc(v data.GetValue) interface{} {
 func finish(recv *data.ArrayValue, g data.GetValue, c data.Control) Obs {
 	if c != nil {
 		if _, ok := c.(*data.ThrowValue); ok {
-			return Obs{Out: "throw", Msg: c.AsString()}
+			o := Obs{Out: "throw", Msg: c.AsString()}
+			if recv != nil {
+				o.After = enc(recv)
+			}
+			return o
 		}
 		return Obs{Out: "control", Msg: fmt.Sprintf("%T", c)}
 	}
@@ -203,6 +228,7 @@ func runCase(c Case) (o Obs) {
 			vs[i] = dec(r)
 		}
 		recv := data.NewArrayValue(vs).(*data.ArrayValue)
+		current = recv
 		var args []data.GetValue
 		if c.Cb != "" {
 			f, ok := cbs[c.Cb]
@@ -274,6 +300,10 @@ func runCase(c Case) (o Obs) {
 
 func main() {
 	vm, ps := vrun.NewVM()
+	if ctl := vm.AddFunc(pushFn{}); ctl != nil {
+		fmt.Fprintln(os.Stderr, "setup: c15_push:", ctl.AsString())
+		os.Exit(2)
+	}
 	prog, acl := ps.ParseString(setup, "c15.zy")
 	if acl != nil {
 		fmt.Fprintln(os.Stderr, "setup parse:", acl.AsString())
